@@ -150,9 +150,16 @@ class Interp:
     def ev_Subscript(self, e, st):
         out = []
         for base, s in self.ev(e.value, st):
+            was_ref = self._is_ref(base)
+            if was_ref:
+                base = s.heap.get(base, base)
             seq = is_t(base) and base[1] in ('tuple', 'list')
             if isinstance(e.slice, ast.Slice):
-                if seq and all(x is None or isinstance(const_value(x), int) for x in (e.slice.lower, e.slice.upper, e.slice.step)):
+                if seq and was_ref and all(x is None or isinstance(const_value(x), int) for x in (e.slice.lower, e.slice.upper, e.slice.step)):
+                    sl = slice(*(None if x is None else const_value(x) for x in (e.slice.lower, e.slice.upper, e.slice.step)))
+                    ref, s2 = self._alloc(T('list', *base[2:][sl]), s)     # slicing a list copies it
+                    out.append((ref, s2))
+                elif seq and all(x is None or isinstance(const_value(x), int) for x in (e.slice.lower, e.slice.upper, e.slice.step)):
                     sl = slice(*(None if x is None else const_value(x) for x in (e.slice.lower, e.slice.upper, e.slice.step)))
                     out.append((T(base[1], *base[2:][sl]), s))
                 else:
@@ -169,7 +176,29 @@ class Interp:
         return self._ev_seq(e.elts, st, 'tuple')
 
     def ev_List(self, e, st):
-        return self._ev_seq(e.elts, st, 'list')
+        res = self._ev_seq(e.elts, st, 'list')
+        if not self.model_lists:
+            return res
+        out = []
+        for v, s in res:
+            out.append(self._alloc(v, s))
+        return out
+
+    # ---- optional heap model of lists (by reference, so that aliasing is visible)
+    model_lists = False
+
+    @staticmethod
+    def _is_ref(v):
+        return is_t(v) and v[1] == 'ref'
+
+    def _alloc(self, content, st):
+        n, s = st.fresh()
+        ref = T('ref', C(n))
+        s.heap[ref] = content
+        return ref, s
+
+    def deref(self, v, st):
+        return st.heap.get(v, v) if self._is_ref(v) else v
 
     def _ev_seq(self, elts, st, op):
         acc = [((), st)]
@@ -186,7 +215,22 @@ class Interp:
         return [(T(op, *vals), s) for vals, s in acc]
 
     def ev_JoinedStr(self, e, st):
-        return [(T('fstring', unparse(e)), st)]
+        acc = [('', st)]
+        for v in e.values:
+            nxt = []
+            for txt, s in acc:
+                if txt is None:
+                    nxt.append((None, s))
+                elif isinstance(v, ast.Constant):
+                    nxt.append((txt + str(v.value), s))
+                else:
+                    for val, s2 in self.ev(v.value, s):
+                        if is_c(val) and isinstance(val[1], (str, int)) and v.format_spec is None and v.conversion in (-1, 115):
+                            nxt.append((txt + str(val[1]), s2))
+                        else:
+                            nxt.append((None, s2))
+            acc = nxt
+        return [((C(txt) if txt is not None else T('fstring', unparse(e))), s) for txt, s in acc]
 
     def ev_Lambda(self, e, st):
         return [(T('lambda', unparse(e)), st)]
@@ -200,11 +244,9 @@ class Interp:
             g = e.generators[0]
             res = []
             for itv, s0 in self.ev(g.iter, st):
-                if not (is_t(itv) and itv[1] in ('list', 'tuple')):
-                    res.append((T('comp', unparse(e)), s0))
-                    continue
+              for seq in self.for_elements(g, itv, s0):
                 work = [((), s0)]
-                for el in itv[2:]:
+                for el in seq:
                     nxt = []
                     for acc, s in work:
                         for s1 in self.assign_to(g.target, el, s):
@@ -221,7 +263,10 @@ class Interp:
                 for acc, s in work:
                     s = s.copy()
                     s.env = dict(st.env)        # comprehension variables do not leak
-                    res.append((T('list', *acc), s))
+                    if self.model_lists:
+                        res.append(self._alloc(T('list', *acc), s))
+                    else:
+                        res.append((T('list', *acc), s))
             return res
         return [(T('comp', unparse(e)), st)]
 
@@ -241,6 +286,22 @@ class Interp:
                     out.append((C(l[1] + r[1]), s2))
                 elif isinstance(e.op, ast.Add) and is_t(l) and is_t(r) and l[1] == r[1] and l[1] in ('list', 'tuple'):
                     out.append((T(l[1], *(l[2:] + r[2:])), s2))
+                elif isinstance(e.op, ast.Mod) and is_c(l) and isinstance(l[1], str) and (
+                        (is_c(r) and isinstance(r[1], (str, int))) or
+                        (is_t(r) and r[1] == 'tuple' and all(is_c(x) and isinstance(x[1], (str, int)) for x in r[2:]))):
+                    try:
+                        out.append((C(l[1] % (r[1] if is_c(r) else tuple(x[1] for x in r[2:]))), s2))
+                    except Exception:
+                        out.append((T('Mod', l, r), s2))
+                elif self.model_lists and isinstance(e.op, ast.Add) and (self._is_ref(l) or self._is_ref(r)):
+                    # list concatenation creates a new list object
+                    cl = s2.heap.get(l, l) if self._is_ref(l) else l
+                    cr = s2.heap.get(r, r) if self._is_ref(r) else r
+                    if is_t(cl) and is_t(cr) and cl[1] == 'list' and cr[1] == 'list':
+                        ref, s3 = self._alloc(T('list', *(cl[2:] + cr[2:])), s2)
+                        out.append((ref, s3))
+                    else:
+                        out.append((T('Add', l, r), s2))
                 else:
                     out.append((T(type(e.op).__name__, l, r), s2))
         return out
@@ -366,6 +427,10 @@ class Interp:
             if len(tg) == 1:
                 return self.call_function(tg[0], args, kwargs, st, recv=recv)
         out = []
+        if self.model_lists:
+            r = self._list_call(call, name, recv, args, kwargs, st)
+            if r is not None:
+                return r
         if name == 'range' and recv is None and args and all(is_c(a) and isinstance(a[1], int) for a in args) and not kwargs:
             return [('ok', T('list', *[C(i) for i in range(*[a[1] for a in args])]), st)]
         n, st = st.fresh()
@@ -374,6 +439,59 @@ class Interp:
             out.append(('raise', self.may_raise[name], st.emit('raise-in', name)))
         out.append(('ok', term, st))
         return out
+
+    def _list_call(self, call, name, recv, args, kwargs, st):
+        if recv is None and name == 'list' and len(args) <= 1:
+            if not args:
+                ref, s = self._alloc(T('list'), st)
+                return [('ok', ref, s)]
+            c = self.deref(args[0], st)
+            if is_t(c) and c[1] in ('list', 'tuple'):
+                ref, s = self._alloc(T('list', *c[2:]), st)
+                return [('ok', ref, s)]
+        if recv is None and name in ('copy.copy', 'copy') and len(args) == 1 and is_t(args[0]) and args[0][1] in ('self', 'obj', 'param'):
+            n, s = st.fresh()
+            clone = T('obj', C(n), args[0])
+            for (k, v) in list(s.heap.items()):
+                if isinstance(k, tuple) and len(k) == 2 and k[0] == args[0]:
+                    s.heap[(clone, k[1])] = v          # shallow: references are shared
+            return [('ok', clone, s.emit('clone', clone, args[0]))]
+        if recv is None and name in ('copy.deepcopy', 'deepcopy') and len(args) == 1 and is_t(args[0]) and args[0][1] in ('self', 'obj', 'param'):
+            n, s = st.fresh()
+            clone = T('obj', C(n), args[0])
+            for (k, v) in list(s.heap.items()):
+                if isinstance(k, tuple) and len(k) == 2 and k[0] == args[0]:
+                    if self._is_ref(v):
+                        v, s = self._alloc(s.heap.get(v), s)
+                    s.heap[(clone, k[1])] = v
+            return [('ok', clone, s.emit('clone', clone, args[0]))]
+        if recv is not None and self._is_ref(recv) and isinstance(call.func, ast.Attribute):
+            m = call.func.attr
+            c = st.heap.get(recv)
+            if is_t(c) and c[1] == 'list':
+                s = st.copy()
+                if m == 'append' and len(args) == 1:
+                    s.heap[recv] = T('list', *(c[2:] + (args[0],)))
+                    return [('ok', C(None), s.emit('mutate', recv, 'append'))]
+                if m == 'extend' and len(args) == 1:
+                    a = self.deref(args[0], s)
+                    if is_t(a) and a[1] in ('list', 'tuple'):
+                        s.heap[recv] = T('list', *(c[2:] + a[2:]))
+                    else:
+                        s.heap[recv] = T('list', *(c[2:] + (T('star', a),)))
+                    return [('ok', C(None), s.emit('mutate', recv, 'extend'))]
+                if m == 'insert' and len(args) == 2 and is_c(args[0]) and isinstance(args[0][1], int):
+                    items = list(c[2:])
+                    items.insert(args[0][1], args[1])
+                    s.heap[recv] = T('list', *items)
+                    return [('ok', C(None), s.emit('mutate', recv, 'insert'))]
+                if m == 'copy' and not args:
+                    ref, s2 = self._alloc(c, st)
+                    return [('ok', ref, s2)]
+                if m in ('pop', 'remove', 'clear', 'sort', 'reverse'):
+                    s.heap[recv] = T('list', T('star', T('mutated', c, m)))
+                    return [('ok', T('call', name, C(0)), s.emit('mutate', recv, m))]
+        return None
 
     def call_function(self, fi, args, kwargs, st, recv=None):
         """Inline a repo function: -> list[(kind, value, state)] with kind in ok/raise."""
@@ -645,6 +763,24 @@ class Interp:
         return [('fall', None, s3) for v, s1 in self.ev(s.value, st) for s3 in self.assign_to(s.target, v, s1)]
 
     def st_AugAssign(self, s, st):
+        if self.model_lists and isinstance(s.op, ast.Add):
+            # `x += [..]` on a list extends the SAME object
+            out = []
+            handled = True
+            for cur, s1 in self.ev(_as_load(s.target), st):
+                if not self._is_ref(cur):
+                    handled = False
+                    break
+                for v, s2 in self.ev(s.value, s1):
+                    c, a = s2.heap.get(cur), self.deref(v, s2)
+                    s3 = s2.copy()
+                    if is_t(c) and c[1] == 'list' and is_t(a) and a[1] in ('list', 'tuple'):
+                        s3.heap[cur] = T('list', *(c[2:] + a[2:]))
+                    else:
+                        s3.heap[cur] = T('list', T('star', T('mutated', c, a)))
+                    out.append(('fall', None, s3.emit('mutate', cur, 'iadd')))
+            if handled:
+                return out
         load = ast.copy_location(ast.BinOp(left=_as_load(s.target), op=s.op, right=s.value), s)
         return [('fall', None, s3) for v, s1 in self.ev(load, st) for s3 in self.assign_to(s.target, v, s1)]
 
@@ -707,6 +843,8 @@ class Interp:
 
     def for_elements(self, s, itv, st):
         """-> list of candidate element sequences (each a list of abstract elements)."""
+        if self._is_ref(itv):
+            itv = st.heap.get(itv, itv)
         if is_t(itv) and itv[1] in ('tuple', 'list'):
             return [list(itv[2:])]
         return [[T('elem', itv, C(k)) for k in range(n)] for n in range(self.unroll + 1)]
